@@ -651,13 +651,13 @@ PROPS["C06"] = dict(
         R("pms_sched", "plain", 4, 25, ["mode=serial"], timeout=300),
     ],
     thorough=[
-        R("pms", "asan", 16, 1500, timeout=7200),
-        R("pms", "plain", 8, 4000, timeout=7200),
-        R("pms", "tsan", 8, 500, ["tracked_every=8"], timeout=7200),
-        R("pms", "plain", 8, 40, ["big=1"], timeout=7200),
-        R("pms", "tsan", 4, 6, ["big=1"], timeout=7200),
-        R("pms_sched", "plain", 8, 1500, ["mode=serial"], timeout=7200),
-        R("pms_sched", "asan", 4, 200, ["mode=serial"], timeout=7200),
+        R("pms", "asan", 16, 500, timeout=7200),
+        R("pms", "plain", 8, 1500, timeout=7200),
+        R("pms", "tsan", 8, 200, ["tracked_every=8"], timeout=7200),
+        R("pms", "plain", 8, 15, ["big=1"], timeout=7200),
+        R("pms", "tsan", 2, 3, ["big=1"], timeout=7200),
+        R("pms_sched", "plain", 8, 600, ["mode=serial"], timeout=7200),
+        R("pms_sched", "asan", 4, 80, ["mode=serial"], timeout=7200),
     ],
     rule="a case = 40 sorts (big=1: 3 sorts of 20000..300000 elements). A sort = n in 0..300 (dense, so n < threads and n "
          "not divisible by threads occur constantly) or 1000..5000, key multiset {all equal, 2-4 distinct keys, sorted, "
